@@ -144,7 +144,7 @@ package authz
 //@   modifies ghost IdP, ghost View, ghost Clk
 //@   ensures  count: IdP.n == old(IdP.n) + 1 || IdP == old(IdP)
 //@   ensures  request: IdP.n == old(IdP.n) + 1 ==> IdP.uri == o.config.GetTokenUri() && RefreshForm(IdP.sent, token, o.config.GetClientId(), o.config.GetClientSecret())
-//@   ensures  merged: result != nil ==> fresh(result) && IdP.n == old(IdP.n) + 1 && IdP.status == 200 && MergeOK(TokOf(result), old(TokOf(expiredTokens)), IdP.body, Clk)
+//@   ensures  merged: result != nil ==> fresh(result) && IdP.n == old(IdP.n) + 1 && IdP.status == 200 && MergeOK(TokOf(result), old(TokOf(expiredTokens)), IdP.body, old(Clk), Clk)
 //@   ensures  validated: result != nil ==> Validated(o.config, result.IDToken)
 //@   ensures  view: OnlySid(old(View), View, StoreFor(o.sessions, o.config).pay, sessionID)
 //@   ensures  view_sid: View == old(View) || Touched(old(View)[StoreFor(o.sessions, o.config).pay][sessionID], View[StoreFor(o.sessions, o.config).pay][sessionID]) || !View[StoreFor(o.sessions, o.config).pay][sessionID].present
@@ -154,7 +154,7 @@ package authz
 //@   requires wf: HandlerOK(o) && log != nil && resp != nil
 //@   requires inv: StoreInv(View, Issued)
 //@   requires presented: oldSessionID == "" || oldSessionID == Presented
-//@   modifies resp.HttpResponse, resp.Status, ghost View, ghost Issued, ghost LastSid, ghost NGen
+//@   modifies resp.HttpResponse, resp.Status, ghost View, ghost Issued, ghost LastSid, ghost NGen, ghost Clk
 //@   ensures  denied: IsDenied(resp) && RespCode(resp) == 16 && DeniedOf(resp) != nil
 //@   ensures  inv: StoreInv(View, Issued)
 //@   ensures  view: OnlyTwo(old(View), View, StoreFor(o.sessions, o.config).pay, oldSessionID, LastSid)
@@ -181,7 +181,7 @@ package authz
 //@   ensures  consumed: HoldsTok(View[StoreFor(o.sessions, o.config).pay][sessionID]) && !(HoldsTok(old(View)[StoreFor(o.sessions, o.config).pay][sessionID]) && View[StoreFor(o.sessions, o.config).pay][sessionID].tok == old(View)[StoreFor(o.sessions, o.config).pay][sessionID].tok) ==> !HoldsAuth(View[StoreFor(o.sessions, o.config).pay][sessionID])
 //@   ensures  deny_content: PlainDeny(DeniedOf(resp)) || IsSessionError(resp) || OopsDeny(DeniedOf(resp)) || BackRedirect(DeniedOf(resp), old(View)[StoreFor(o.sessions, o.config).pay][sessionID].auth.url)
 //@   ensures  redirect_back: NewlyBound(old(View)[StoreFor(o.sessions, o.config).pay][sessionID], View[StoreFor(o.sessions, o.config).pay][sessionID]) && !IsSessionError(resp) ==> RedirectShape(DeniedOf(resp), 3) && HdrVal(DeniedOf(resp).Headers[2]) == old(View)[StoreFor(o.sessions, o.config).pay][sessionID].auth.url
-//@   ensures  login_expiry: NewlyBound(old(View)[StoreFor(o.sessions, o.config).pay][sessionID], View[StoreFor(o.sessions, o.config).pay][sessionID]) ==> LoginExpiry(View[StoreFor(o.sessions, o.config).pay][sessionID].tok, IdP.body, Clk)
+//@   ensures  login_expiry: NewlyBound(old(View)[StoreFor(o.sessions, o.config).pay][sessionID], View[StoreFor(o.sessions, o.config).pay][sessionID]) ==> LoginExpiry(View[StoreFor(o.sessions, o.config).pay][sessionID].tok, IdP.body, old(Clk), Clk)
 
 //@ func (*oidcHandler).Process
 //@   requires wf: HandlerOK(o) && o.httpClient != nil && resp != nil && UrlParses(o.config.GetCallbackUri())
